@@ -565,7 +565,7 @@ func main() {
 	run.Extra("fault_rounds", faultRounds)
 	run.Extra("overlap_product_per_round", overlapProduct())
 	run.Extra("overlap_rounds", overlapRounds)
-	wireRounds := run.N(1, 30)
+	wireRounds := run.N(1, 12)
 	run.Extra("wire_product_per_round", wireProduct())
 	run.Extra("wire_rounds", wireRounds)
 	if rc := run.ReplayCase(); rc >= 0 {
